@@ -1921,6 +1921,11 @@ class Sim:
                     return ("value", a.fields[0])
                 return ("panic", "unwrap on None")
             return ("value", UNK)
+        if p in ("std::option::Option::<T>::as_ref", "std::option::Option::<T>::as_mut", "std::option::Option::<T>::as_deref") \
+                and len(d) == 1 and isinstance(d[0], Adt) and d[0].adt.endswith("Option"):
+            if d[0].variant == 0:
+                return ("value", Adt("std::option::Option", 0, []))
+            return ("value", Adt("std::option::Option", 1, [Ref(d[0].fields, 0, ())]))      # a reference to the payload
         if p == "std::option::Option::<T>::ok_or" and len(d) == 2 and isinstance(d[0], Adt):
             if d[0].variant == 1:
                 return ("value", Adt("std::result::Result", 0, [d[0].fields[0]]))
